@@ -15,6 +15,10 @@ structure Inv (c : Ctx) : Prop where
   sound : ∀ t t', t'.wf = true → c.toType.lookup (encodeTV t') = some t → t = t'
   range : ∀ k t, c.toType.lookup k = some t → c.has t
   defs : ∀ n t, c.typedefs.lookup n = some t → t ∈ c.byID ∧ ∃ x, t = .named n x
+  /-- the stored serialized value of a type is its canonical serialization -/
+  tvcanon : ∀ t b, c.toValue.lookup t = some b → b = encodeTV t
+  /-- every type `toType` knows has a stored value (so `LookupTypeValue` answers from `toValue`) -/
+  tvtotal : ∀ k t, c.toType.lookup k = some t → (c.toValue.lookup t).isSome = true
 
 theorem inv_empty : Ctx.empty.Inv where
   nodup := by simp [Ctx.empty]
@@ -23,8 +27,18 @@ theorem inv_empty : Ctx.empty.Inv where
   sound := by simp [Ctx.empty, List.lookup]
   range := by simp [Ctx.empty, List.lookup]
   defs := by simp [Ctx.empty, List.lookup]
+  tvcanon := by simp [Ctx.empty, List.lookup]
+  tvtotal := by simp [Ctx.empty, List.lookup]
 
 theorem lookup_cons_bytes (k k' : Bytes) (v : Ty) (l : List (Bytes × Ty)) :
+    List.lookup k ((k', v) :: l) = if k = k' then some v else List.lookup k l := by
+  simp only [List.lookup]
+  by_cases h : k = k'
+  · subst h; simp
+  · have : (k == k') = false := by simpa using h
+    simp [this, h]
+
+theorem lookup_cons_ty (k k' : Ty) (v : Bytes) (l : List (Ty × Bytes)) :
     List.lookup k ((k', v) :: l) = if k = k' then some v else List.lookup k l := by
   simp only [List.lookup]
   by_cases h : k = k'
@@ -36,7 +50,7 @@ theorem lookup_cons_bytes (k k' : Bytes) (v : Ty) (l : List (Bytes × Ty)) :
 theorem enter_inv (c : Ctx) (hc : c.Inv) (t : Ty) (wt : t.wf = true) (ct : t.isComplex = true)
     (hmiss : c.toType.lookup (encodeTV t) = none) : (c.enter (encodeTV t) t).Inv := by
   have hnot : t ∉ c.byID := fun hm => by rw [hc.total t hm] at hmiss; simp at hmiss
-  refine ⟨?_, ?_, ?_, ?_, ?_, ?_⟩
+  refine ⟨?_, ?_, ?_, ?_, ?_, ?_, ?_, ?_⟩
   · simp only [enter]
     exact List.nodup_append.mpr ⟨hc.nodup, by simp, by
       intro a ha b hb; simp only [mem_singleton] at hb; subst hb; intro e; subst e; exact hnot ha⟩
@@ -74,6 +88,20 @@ theorem enter_inv (c : Ctx) (hc : c.Inv) (t : Ty) (wt : t.wf = true) (ct : t.isC
     simp only [enter] at hl
     obtain ⟨hm, hx⟩ := hc.defs n u hl
     exact ⟨by simp [enter, hm], hx⟩
+  · intro u b hl
+    simp only [enter, lookup_cons_ty] at hl
+    by_cases e : u = t
+    · rw [if_pos e] at hl; rw [e]; exact (Option.some.inj hl).symm
+    · rw [if_neg e] at hl; exact hc.tvcanon u b hl
+  · intro k u hl
+    simp only [enter, lookup_cons_bytes] at hl
+    simp only [enter, lookup_cons_ty]
+    by_cases e : k = encodeTV t
+    · rw [if_pos e] at hl; cases hl; simp
+    · rw [if_neg e] at hl
+      by_cases e2 : u = t
+      · simp [e2]
+      · rw [if_neg e2]; exact hc.tvtotal k u hl
 
 theorem has_enter (c : Ctx) (tv : Bytes) (t u : Ty) (h : c.has u) : (c.enter tv t).has u :=
   ⟨h.1, h.2.imp (fun h => by simp [enter, h]) id⟩
